@@ -262,6 +262,41 @@ vf_argi(int argc, char **argv, const char *name, long long def)
 	return v ? strtoll(v, NULL, 0) : def;
 }
 
+/* byte copy / hash of a whole library context: the contexts carry guard bytes that are poisoned for
+ * ASan (hook H4), so these two walk over them without instrumentation */
+__attribute__((no_sanitize_address, noinline)) static void
+vf_raw_copy(void *dst, const void *src, size_t len)
+{
+	volatile unsigned char *d = dst;
+	const volatile unsigned char *s2 = src;
+	while (len -- > 0) *d ++ = *s2 ++;
+}
+
+__attribute__((no_sanitize_address, noinline)) static uint64_t
+vf_raw_fnv(const void *data, size_t len, uint64_t h)
+{
+	const volatile unsigned char *p = data;
+	if (h == 0) h = 0xCBF29CE484222325ull;
+	while (len -- > 0) { h ^= *p ++; h *= 0x100000001B3ull; }
+	return h;
+}
+
+__attribute__((no_sanitize_address, noinline)) static void
+vf_raw_zero(void *dst, size_t len)
+{
+	volatile unsigned char *d = dst;
+	while (len -- > 0) *d ++ = 0;
+}
+
+static inline void *
+vf_raw_dup(const void *src, size_t len)
+{
+	void *p = malloc(len ? len : 1);
+	if (!p) { fprintf(stderr, "oom\n"); exit(2); }
+	vf_raw_copy(p, src, len);
+	return p;
+}
+
 /* exact-size heap copy so that ASan red zones bound the object */
 static inline void *
 vf_dup(const void *src, size_t len)
